@@ -1,7 +1,7 @@
 #!/usr/bin/env python3
 import os
 HERE = os.path.dirname(os.path.abspath(__file__))
-VARS = ["ForcedAwaitsWorkers", "GracefulSkipsAwait", "CompleteBeforeJoin", "TermIsForced", "SecondStopHangs"]
+VARS = ["ForcedAwaitsWorkers", "GracefulSkipsAwait", "CompleteBeforeJoin", "TermIsForced", "SecondStopHangs", "AwaitsLastWorkerOnly"]
 INVS = "C06_GracefulWaits C06_NoDispatchAfterCompletion C06_SignalKinds"
 
 
@@ -29,4 +29,5 @@ cfg("NEG_stop_GracefulSkipsAwait", 1, 1, 1, 2, flip=["GracefulSkipsAwait"])
 cfg("NEG_stop_CompleteBeforeJoin", 1, 1, 1, 2, flip=["CompleteBeforeJoin"])
 cfg("NEG_stop_TermIsForced", 1, 1, 1, 2, flip=["TermIsForced"])
 cfg("NEG_stop_SecondStopHangs", 1, 1, 2, 2, flip=["SecondStopHangs"], spec="FairSpec", props="C06_AlwaysCompletes", invs="")
+cfg("NEG_stop_AwaitsLastWorkerOnly", 2, 1, 1, 2, flip=["AwaitsLastWorkerOnly"])
 print("stop configs written")
